@@ -69,7 +69,9 @@ class Ctx:
         self.samples = []
         self.sample_kinds = set()
         self.hist = {}
-        self.violations = []          # dicts: mechanism, what, case, detail
+        self.violations = []          # dicts: mechanism, what, case, detail (first few per mechanism)
+        self.n_violations = 0
+        self.viol_mech = {}
         self.known_hits = {}          # mechanism -> count
         self.inconclusive = []        # reasons
         self.notes = {}
@@ -110,8 +112,11 @@ class Ctx:
         if (self.pid, mechanism) in self.known:
             self.known_hits[mechanism] = self.known_hits.get(mechanism, 0) + 1
             return
-        self.violations.append({"mechanism": mechanism, "what": what,
-                                "case": jsonable(case), "detail": jsonable(detail)})
+        self.n_violations += 1
+        self.viol_mech[mechanism] = self.viol_mech.get(mechanism, 0) + 1
+        if self.viol_mech[mechanism] <= MAX_REPLAYS_PER_MECHANISM + 2:
+            self.violations.append({"mechanism": mechanism, "what": what,
+                                    "case": jsonable(case), "detail": jsonable(detail)})
 
     def inconclusive_because(self, reason: str) -> None:
         if reason not in self.inconclusive:
@@ -124,8 +129,9 @@ class Ctx:
             "nontrivial": len(self.nontrivial_keys),
             "samples": self.samples,
             "hist": self.hist,
-            "violations": self.violations[:50],
-            "n_violations": len(self.violations),
+            "violations": self.violations[:60],
+            "n_violations": self.n_violations,
+            "violation_mechanisms": self.viol_mech,
             "known_hits": self.known_hits,
             "inconclusive": self.inconclusive,
             "notes": self.notes,
@@ -153,6 +159,8 @@ def merge_partials(parts: list[dict]) -> dict:
             out["hist"][k] = out["hist"].get(k, 0) + v
         out["violations"] += p["violations"]
         out["n_violations"] += p["n_violations"]
+        for k, v in p.get("violation_mechanisms", {}).items():
+            out.setdefault("violation_mechanisms", {})[k] = out.setdefault("violation_mechanisms", {}).get(k, 0) + v
         for k, v in p["known_hits"].items():
             out["known_hits"][k] = out["known_hits"].get(k, 0) + v
         for r in p["inconclusive"]:
@@ -214,6 +222,7 @@ def finalize(pid: str, level: str, tier: str, seed: int, merged: dict, meta: dic
         "outcome_histogram": merged["hist"],
         "skipped": merged["skipped"],
         "known_finding_hits": merged["known_hits"],
+        "violation_mechanisms": merged.get("violation_mechanisms", {}),
         "observations": merged["notes"],
         "reach": meta.get("reach", {}),
         "exhaustive_parts": meta.get("exhaustive_parts", []),
